@@ -60,7 +60,7 @@ PROPS = {
         explanation="parameter frame (F1), argument frame (F2) and model frame (F2') proved for every method / query of every pool strategy class found in the package"),
     "C06": dict(
         units=[("contracts.frames", has("F3", "F1.pool", "F1.stream"))],
-        bounded=[("bounded/pool.py", "C06"), ("bounded/stream_budget.py", "C06"), ("bounded/models.py", "C06")],
+        bounded=[("bounded/pool.py", "C06"), ("bounded/stream_budget.py", "C06"), ("bounded/models.py", "C06"), ("bounded/wrappers.py", "C06")],
         trusted=[L1_BASE, "list of stochastic scikit-learn classes (contracts/frames.py STOCHASTIC_SKLEARN)"],
         assumptions=["no other source of nondeterminism (hash ordering, threads, BLAS reductions)",
                      "classifiers follow the scikit-learn convention random_state_ = check_random_state(random_state): with a RandomState instance "
